@@ -60,7 +60,11 @@ theorem next_enter' (s : St) (cb : Cb) (x : Arg) (h : s.mustStart = false) (hcb 
 @[simp] theorem next_callSent (s : St) (k : Nat) (b : Bool) : next me s (.callSent k b) = .ok s := rfl
 @[simp] theorem next_polled (s : St) : next me s .polled = .ok s := rfl
 @[simp] theorem next_waitRet (s : St) (w : Nat) (b : Bool) : next me s (.waitRet w b) = .ok s := rfl
-@[simp] theorem next_snap (s : St) (sn : Snap) : next me s (.snap sn) = .ok s := rfl
+theorem next_snap (s : St) (a : Actor) : next me s (.snap a.snap) = .ok s := by
+  simp [next, Actor.snap]
+
+theorem accepts_snapTail' (s : St) (a' : Actor) : accepts (next me) s (evs (snapTail a')) = .ok s := by
+  unfold snapTail; split <;> simp [accepts_cons, next_snap]
 @[simp] theorem next_isLocal (s : St) : next me s .isLocal = .ok { s with isLocal := true } := rfl
 @[simp] theorem next_supIs (s : St) (p : Option Nat) : next me s (.supIs p) = .ok { s with sup := p } := rfl
 @[simp] theorem next_aborted (s : St) : next me s .aborted = .ok { s with aborted := true } := rfl
@@ -1310,11 +1314,11 @@ theorem step_sim (a : Actor) (s : St) (op : AOp) (h : Inv me a s) :
   · refine ⟨s1, ?_, hid, by rw [hsup, heq], hrest⟩
     simp only [supTail, heq, ↓reduceIte, List.append_nil, evs_append]
     rw [accepts_append _ _ hacc]
-    exact accepts_snapTail _ (next_snap me) s1 _
+    exact accepts_snapTail' me s1 _
   · refine ⟨{ s1 with sup := (a.stepCore op).1.sup }, ?_, hid, rfl, ?_⟩
     · simp only [supTail, heq, ↓reduceIte, evs_append]
       rw [accepts_append (s' := { s1 with sup := (a.stepCore op).1.sup }) _ _ (by rw [accepts_append _ _ hacc]; simp [accepts_cons])]
-      exact accepts_snapTail _ (next_snap me) _ _
+      exact accepts_snapTail' me _ _
     · rcases hrest with hd | hc
       · exact Or.inl hd
       · exact Or.inr (hc.setSup _)
